@@ -95,6 +95,16 @@ fn check_zero(case: &Case, obs: &mut Obs) {
         obs.discard(format!("non-finite A_res:{}", spec.label()));
         return;
     }
+    // The site-fraction iteration of the association term can fail silently for one dual-number type and
+    // not for another (seed 305: random SAFT-VR Mie ternary, dense liquid: A_res = -19 NkT from the f64
+    // evaluation, NaN from every first-order evaluation, and NaN for A_res itself after a 1-ulp change of the
+    // inputs, so that the JSON replay file does not reproduce the case): the same discard as for a
+    // non-finite A_res, as in C08/C09 (open finding C11/association-nonconvergence-flips-with-route).
+    // Only models with an association term, and only if the first-order scale itself is not a number.
+    if spec.has_association() && !(contrib_abs(&s, PD::First(DV)).is_finite() && contrib_abs(&s, PD::First(DT)).is_finite()) {
+        obs.discard(format!("association iteration without result for the first-order dual numbers (non-finite scale):{}", spec.label()));
+        return;
+    }
     let eta = st.f_eta * spec.opts.max_eta;
     let cond = 1.0 + 1e-2 / eta;
     let stiff = if spec.has_association() { super::c08::assoc_stiffness(spec, t, rho, &st.x, eta) } else { 0.0 };
@@ -135,6 +145,10 @@ fn check_zero(case: &Case, obs: &mut Obs) {
     let l = case.lambda2;
     let inputs2 = (inputs.0, inputs.1 * l, &inputs.2 * l);
     if let Ok(s2) = build_state(&model, &inputs2) {
+        if spec.has_association() && !(s2.residual_helmholtz_energy().to_reduced().is_finite() && s2.pressure(RES).to_reduced().is_finite()) {
+            obs.discard(format!("association iteration without result on the scaled state:{}", spec.label()));
+            return;
+        }
         let mu2 = s2.residual_chemical_potential().to_reduced();
         let dpdn2 = s2.dp_dni(RES).to_reduced();
         let dmu2 = s2.dmu_dni(RES).to_reduced();
@@ -207,6 +221,16 @@ pub fn check(case: &Case, obs: &mut Obs) {
     let a = s.residual_helmholtz_energy().to_reduced();
     if !a.is_finite() {
         obs.discard(format!("non-finite A_res:{}", spec.label()));
+        return;
+    }
+    // The site-fraction iteration of the association term can fail silently for one dual-number type and
+    // not for another (seed 305: random SAFT-VR Mie ternary, dense liquid: A_res = -19 NkT from the f64
+    // evaluation, NaN from every first-order evaluation, and NaN for A_res itself after a 1-ulp change of the
+    // inputs, so that the JSON replay file does not reproduce the case): the same discard as for a
+    // non-finite A_res, as in C08/C09 (open finding C11/association-nonconvergence-flips-with-route).
+    // Only models with an association term, and only if the first-order scale itself is not a number.
+    if spec.has_association() && !(contrib_abs(&s, PD::First(DV)).is_finite() && contrib_abs(&s, PD::First(DT)).is_finite()) {
+        obs.discard(format!("association iteration without result for the first-order dual numbers (non-finite scale):{}", spec.label()));
         return;
     }
     let p_res = s.pressure(RES).to_reduced();
@@ -339,6 +363,12 @@ pub fn check(case: &Case, obs: &mut Obs) {
     let inputs2 = (inputs.0, inputs.1 * l, &inputs.2 * l);
     match build_state(&eos, &inputs2) {
         Err(e) => obs.discard(format!("scaled state:{e}")),
+        // the site-fraction iteration (started from 0.2 on every fresh state, convergence test norm(g) < tol on
+        // numbers of the order rho*Delta) ends on either side of its test after a 1-ulp change of V and N: a
+        // scaled state without result is the same discard as a centre state without result
+        Ok(s2) if spec.has_association() && !(s2.residual_helmholtz_energy().to_reduced().is_finite() && s2.pressure(RES).to_reduced().is_finite()) => {
+            obs.discard(format!("association iteration without result on the scaled state:{}", spec.label()))
+        }
         Ok(s2) => {
             type S = State<FullModel>;
             // getters with a contribution selector: scale = |ideal part| + sum_c |residual contribution|
